@@ -1,8 +1,99 @@
 /-
-  C16 — property theorems (see DESIGN.md §5 C16).
+  C16 — what `CheckDebsig` verifies is debian-binary ++ the control member ++ the data
+  member, the very members the loader selected; these are the only members with their
+  prefix; the loaded control data come from that same control member.
+  Property theorems only; lemmas live in GoDebian/Lemmas/DebPlan.lean.
 -/
 import GoDebian.Model.Deb
 import GoDebian.Spec.Ar
+import GoDebian.Lemmas.DebPlan
 
 namespace GoDebian.Props.C16
+open GoDebian GoDebian.Ar GoDebian.Deb
+
+/-- What CheckDebsig verifies is debian-binary ++ the control member ++ the data member —
+    the very members the loader selected. -/
+theorem C16_covers (bs : Bytes) (p : Plan) (role : Bytes) (sig b c d : Entry)
+    (hp : plan bs = .ok p) (h : debsigPlan p role = some (sig, b, c, d)) :
+    c = p.control ∧ d = p.data ∧ find sDebianBinary p.members = some b ∧
+      find (sGpg ++ role) p.members = some sig ∧
+      signedBytes bs p = Ar.data bs b ++ Ar.data bs c ++ Ar.data bs d :=
+  have _ := hp
+  Lemmas.Deb.debsigPlan_some h
+
+/-- Satisfiable: a package with an `_gpgorigin` member between control and data; the signed
+    message is the three members' data in the fixed order, not the archive order, and
+    without the signature member. -/
+example :
+    let B := Bytes.ofString
+    let d1 : Spec.Ar.Member := ⟨B "debian-binary", false, some 1700000000, some 0, some 0, B "100644", B "2.0\n"⟩
+    let d2 : Spec.Ar.Member := ⟨B "control.tar.gz", false, some 1700000000, some 0, some 0, B "100644", B "xyz"⟩
+    let d3 : Spec.Ar.Member := ⟨B "data.tar.xz", true, some 1700000000, some 0, some 0, B "100644", B "data!"⟩
+    let d4 : Spec.Ar.Member := ⟨B "_gpgorigin", true, some 1700000000, some 0, some 0, B "100644", B "SIG"⟩
+    let bs := Spec.Ar.build [d3, d4, d1, d2]
+    (plan bs).toOption.map (fun p => (debsigPlan p (B "origin")).map
+        (fun q => (q.1.name, q.2.1.name, q.2.2.1.name, q.2.2.2.name)))
+      = some (some (B "_gpgorigin", B "debian-binary", B "control.tar.gz", B "data.tar.xz")) ∧
+    (plan bs).toOption.map (fun p => signedBytes bs p) = some (B "2.0\nxyzdata!") ∧
+    (plan bs).toOption.map (fun p => (debsigPlan p (B "maint")).isSome) = some false := by
+  decide +kernel
+
+/-- The selected members are the only ones with their prefix: a second control.* or data.*
+    member makes loading fail; no two members share a name. -/
+theorem C16_unique (bs : Bytes) (p : Plan) (hp : plan bs = .ok p) :
+    p.members.filter (fun m => Str.hasPrefix m.name sControlDot) = [p.control] ∧
+      p.members.filter (fun m => Str.hasPrefix m.name sDataDot) = [p.data] ∧
+      (p.members.map (·.name)).Nodup :=
+  let ⟨_, _, _, hnd, _, _, _, hcs, hds, _⟩ := Lemmas.Deb.plan_ok hp
+  ⟨hcs, hds, hnd⟩
+
+/-- The hypothesis is satisfiable, and a second `control.*` / `data.*` member (under a
+    different name, so not caught as a duplicate) or a repeated name is rejected. -/
+example :
+    let B := Bytes.ofString
+    let d1 : Spec.Ar.Member := ⟨B "debian-binary", false, some 1700000000, some 0, some 0, B "100644", B "2.0\n"⟩
+    let d2 : Spec.Ar.Member := ⟨B "control.tar.gz", false, some 1700000000, some 0, some 0, B "100644", B "xyz"⟩
+    let d3 : Spec.Ar.Member := ⟨B "data.tar.xz", true, some 1700000000, some 0, some 0, B "100644", B "data!"⟩
+    let d2' : Spec.Ar.Member := { d2 with name := B "control.tar.xz" }
+    let d3' : Spec.Ar.Member := { d3 with name := B "data.tar" }
+    (plan (Spec.Ar.build [d1, d2, d3])).toOption.isSome = true ∧
+    (plan (Spec.Ar.build [d1, d2, d3, d2'])).toOption.isSome = false ∧
+    (plan (Spec.Ar.build [d1, d3', d2, d3])).toOption.isSome = false ∧
+    (plan (Spec.Ar.build [d1, d2, d3, d1])).toOption.isSome = false := by
+  decide +kernel
+
+/-- Without a `_gpg<role>` member nothing is verified: `CheckDebsig` reports an error. -/
+theorem C16_reject_role (p : Plan) (role : Bytes) (h : find (sGpg ++ role) p.members = none) :
+    debsigPlan p role = none :=
+  Lemmas.Deb.debsigPlan_none h
+
+example :
+    let e : Entry := ⟨Bytes.ofString "_gpgorigin", 0, 0, 0, [], 0, 8, 68⟩
+    find (sGpg ++ Bytes.ofString "maint") [e] = none ∧
+    find (sGpg ++ Bytes.ofString "origin") [e] = some e := by
+  decide +kernel
+
+/-- The loaded control data come from that same control member: `load` succeeds only
+    through `plan`. -/
+theorem C16_load_uses_plan (bs : Bytes) (schema : Codec.Schema) (ctl : TarAnswer) (d : Bool)
+    (l : Loaded) (h : load bs schema ctl d = .ok l) :
+    ∃ p, plan bs = .ok p ∧ l.controlExt = p.control.name.drop 8 ∧
+      l.dataExt = p.data.name.drop 5 ∧ l.members = p.members.map (·.name) :=
+  Lemmas.Deb.load_ok h
+
+/-- Satisfiable: a package loaded with a two-field schema. -/
+example :
+    let B := Bytes.ofString
+    let d1 : Spec.Ar.Member := ⟨B "debian-binary", false, some 1700000000, some 0, some 0, B "100644", B "2.0\n"⟩
+    let d2 : Spec.Ar.Member := ⟨B "control.tar.gz", false, some 1700000000, some 0, some 0, B "100644", B "xyz"⟩
+    let d3 : Spec.Ar.Member := ⟨B "data.tar.xz", true, some 1700000000, some 0, some 0, B "100644", B "data!"⟩
+    let schema : Codec.Schema := [.mk "Package" (B "Package") .str [] [] true false false,
+      .mk "Version" (B "Version") (.custom "Version") [] [] false false false]
+    let ctl : TarAnswer := .entries [(B "./", some []), (B "./md5sums", some (B "x")),
+      (B "./control", some (B "Package: hello\nVersion: 1:2.0-3\n"))] false
+    (load (Spec.Ar.build [d1, d2, d3]) schema ctl true).toOption.map
+        (fun l => (l.controlExt, l.dataExt, l.members))
+      = some (B "tar.gz", B "tar.xz", [B "debian-binary", B "control.tar.gz", B "data.tar.xz"]) := by
+  decide +kernel
+
 end GoDebian.Props.C16
